@@ -72,6 +72,9 @@ structure Codec.Lawful (c : Codec) (k n : Nat) : Prop where
       ids.length = k → ids.Nodup → (∀ i ∈ ids, i < n) →
       c.decode k n (ids.map (fun i => (i, (c.encode k n pieces).getD i []))) = pieces
 
+/-- what a schedule may hand to `_decode_blocks` for one segment: `k` distinct share numbers below `n` -/
+def ValidIds (k n : Nat) (ids : List Nat) : Prop := ids.length = k ∧ ids.Nodup ∧ ∀ i ∈ ids, i < n
+
 /-! ### upload -/
 
 /-- `[data[i:i+sz] for i in range(0, len(data), sz)]` (`sz = 0` would be a ValueError; callers have `sz > 0`) -/
